@@ -31,13 +31,20 @@ def setup_torch():
     os.environ.setdefault('OMP_NUM_THREADS', '4')
     sys.path.insert(0, REPO)
     import torch
-    torch.set_default_dtype(torch.float64)
     torch.set_num_threads(int(os.environ.get('OMP_NUM_THREADS', '4')))
     import pytorch_wavelets
     got = os.path.realpath(os.path.dirname(pytorch_wavelets.__file__))
     want = os.path.realpath(os.path.join(REPO, 'pytorch_wavelets'))
     if got != want:
         raise RuntimeError('pytorch_wavelets imported from %s, expected %s' % (got, want))
+    from . import history
+    if not history.STATE.get('installed'):
+        history.STATE['installed'] = True
+        if os.environ.get('VERIF_NO_HISTORY') != '1':
+            # the package is imported, and modules are built and called, under the stock float32 default first
+            history.prehistory(torch)
+            history.install(seed())
+    torch.set_default_dtype(torch.float64)
     return torch
 
 
@@ -299,6 +306,26 @@ def guard(ck, fn, *a, **k):
         return 'raise'
 
 
+def iso_run(jobs, timeout=900):
+    """run each job {module, func, args} in a fresh interpreter of its own (harness.iso_worker), up to 16 at a
+    time; returns the list of results, ('error', text) where a worker failed"""
+    import subprocess, pickle
+    from concurrent.futures import ThreadPoolExecutor
+
+    def one(job):
+        env = dict(os.environ, OMP_NUM_THREADS=os.environ.get('OMP_NUM_THREADS', '4'), PYTHONWARNINGS='ignore')
+        try:
+            p = subprocess.run([sys.executable, '-m', 'harness.iso_worker'], input=json.dumps(job).encode(),
+                               capture_output=True, cwd=ROOT, env=env, timeout=timeout)
+        except subprocess.TimeoutExpired:
+            return ('error', 'timeout')
+        if p.returncode != 0:
+            return ('error', p.stderr.decode()[-400:])
+        return pickle.loads(p.stdout)
+    with ThreadPoolExecutor(max_workers=min(16, os.cpu_count() or 4)) as ex:
+        return list(ex.map(one, jobs))
+
+
 # ----------------------------------------------------------------------------
 # Known findings
 # ----------------------------------------------------------------------------
@@ -416,6 +443,8 @@ class Check:
         for k, v in self.extra.items():
             if k not in ('module', 'rule'):
                 cov[k] = v
+        from . import history
+        cov['histories'] = dict(history.STATS)
         ev = {'property_id': self.id, 'tier': self.tier, 'seed': self.seed, 'level': 'proof',
               'coverage': cov, 'assumptions': self.assumptions, 'wall_s': round(wall, 2),
               'violations': (len(self.failures) if self.failures else (1 if broken else 0))}
